@@ -261,7 +261,15 @@ uint32_t ICMPv6::trailer_size() const {
             output += upper_bound - inner_pdu()->size();
         }
     }
+    else if (inner_pdu() && is_length_field_used()) {
+        // The length field counts 64 bit words, so the inner PDU has to be padded
+        output += get_adjusted_inner_pdu_size() - inner_pdu()->size();
+    }
     return output;
+}
+
+bool ICMPv6::is_length_field_used() const {
+    return are_extensions_allowed() && length() != 0;
 }
 
 void ICMPv6::use_length_field(bool value) {
@@ -292,9 +300,12 @@ void ICMPv6::write_serialization(uint8_t* buffer, uint32_t total_sz) {
     // If extensions are allowed and we have to set the length field
     if (are_extensions_allowed()) {
         uint32_t length_value = get_adjusted_inner_pdu_size();
-        // If the next pdu size is greater than 128, we are forced to set the length field
-        if (length() != 0 || length_value > 128) {
-            if (length_value > 0) {
+        // If we have extensions and the next pdu size is greater than 128, we are 
+        // forced to set the length field
+        if (length() != 0 || (has_extensions() && length_value > 128)) {
+            // If we have extensions, we'll have at least 128 bytes.
+            // Otherwise, just use the length 
+            if (length_value > 0 && has_extensions()) {
                 length_value = (length_value > 128U) ? length_value : 128U;
             }
             // This field uses 64 bit words as the unit
@@ -366,6 +377,12 @@ void ICMPv6::write_serialization(uint8_t* buffer, uint32_t total_sz) {
             extensions_ptr, 
             total_sz - (extensions_ptr - stream.pointer())
         );
+    }
+    else if (inner_pdu() && is_length_field_used()) {
+        // Pad the inner PDU to the next 64 bit boundary
+        const uint32_t inner_pdu_size = inner_pdu()->size();
+        memset(stream.pointer() + inner_pdu_size, 0, 
+               get_adjusted_inner_pdu_size() - inner_pdu_size);
     }
 
     const Tins::IPv6* ipv6 = tins_cast<const Tins::IPv6*>(parent_pdu());
